@@ -473,23 +473,26 @@ def native_frame_witness(dtype, want_modified=True, max_n=2):
     import numpy as np
 
     mod = importlib.import_module(SRC)
+    fallback = None
     for n in range(1, max_n + 1):
         for bits in itertools.product((0, 1), repeat=2 * n * n):
             x = np.array(bits[:n * n]).reshape(n, n).astype(float if dtype == "float" else int)
             z = np.array(bits[n * n:]).reshape(n, n).astype(float if dtype == "float" else int)
             x0, z0 = x.copy(), z.copy()
+            outcome = "returns normally"
             try:
                 mod._graph_finder(x, z, get_ops_data=True)
-            except Exception:  # noqa: BLE001
-                pass
+            except Exception as e:  # noqa: BLE001
+                outcome = f"raises {type(e).__name__}: {e}"
             changed = not (np.array_equal(x, x0) and np.array_equal(z, z0))
             if changed == want_modified:
-                return {"function": GF, "args": {"x_matrix": {"dtype": dtype, "values": x0.tolist()}, "z_matrix": {"dtype": dtype, "values": z0.tolist()}},
-                        "expected": "arguments unchanged after the call" if want_modified else "(canary) arguments rewritten",
-                        "actual": {"x_matrix after": x.tolist(), "z_matrix after": z.tolist()}}
-            if n == max_n and bits[0] == 1 and sum(bits) > 6:
-                break
-    return None
+                w = {"function": GF, "args": {"x_matrix": {"dtype": dtype, "values": x0.tolist()}, "z_matrix": {"dtype": dtype, "values": z0.tolist()}},
+                     "expected": "arguments unchanged after the call" if want_modified else "(canary) arguments rewritten",
+                     "actual": {"x_matrix after": x.tolist(), "z_matrix after": z.tolist(), "call": outcome}}
+                if outcome == "returns normally":  # prefer an input on which the conversion itself succeeds
+                    return w
+                fallback = fallback or w
+    return fallback
 
 
 def gf_tasks():
